@@ -174,3 +174,28 @@ package hcl
 //@ loop 3 invariant contentCalls == atentry(contentCalls) && partialCalls == atentry(partialCalls)
 //@ loop 4 invariant contentCalls == atentry(contentCalls) && partialCalls == atentry(partialCalls)
 //@ loop 2 invariant (!partial ==> contentCalls == old(contentCalls) + rangeindex + 1 && partialCalls == old(partialCalls)) && (partial ==> partialCalls == old(partialCalls) + rangeindex + 1 && contentCalls == old(contentCalls)) && rangeindex + 1 <= len(mb)
+
+// ---- traversals keep marks (unit U15b, C06) ----
+// verif:unit U15b props=C06
+// A traversal step returned without diagnostics carries every mark of the value it was applied to:
+// assumed at the interface, proved for the two implementations that can be called (attribute and
+// index steps delegate to GetAttr / Index); the root and splat steps panic by design.
+// verif:func (Traverser).TraversalStep
+//@ trusted
+//@ assigns nothing
+//@ ensures marks: len(ret1) == 0 ==> (forall k iface :: { marked(ret0, k) } marked(arg1, k) ==> marked(ret0, k))
+// verif:func (TraverseAttr).TraversalStep
+//@ nosafety
+//@ ensures marks: len(ret1) == 0 ==> (forall k iface :: { marked(ret0, k) } marked(val, k) ==> marked(ret0, k))
+// verif:func (TraverseIndex).TraversalStep
+//@ nosafety
+//@ ensures marks: len(ret1) == 0 ==> (forall k iface :: { marked(ret0, k) } marked(val, k) ==> marked(ret0, k))
+// A relative traversal applied to a value keeps the value's marks through every step.
+// verif:func (Traversal).IsRelative
+//@ nosafety
+//@ pure
+// verif:func (Traversal).TraverseRel
+//@ nosafety
+//@ maypanic
+//@ ensures marks: len(ret1) == 0 ==> (forall k iface :: { marked(ret0, k) } marked(old(val), k) ==> marked(ret0, k))
+//@ loop 1 invariant len(diags) == 0 ==> (forall k iface :: { marked(current, k) } marked(val, k) ==> marked(current, k))
